@@ -438,7 +438,16 @@ func (x *fsExec) check() (viol []sched.Violation, summary string, nontrivial boo
 		lastTickAt := map[string]int{}
 		persisted := map[string]string{}                       // task/coll/channel -> checkpointed end position id
 		ackOf := map[string]struct{ ch string; tick uint64; at int }{} // end position id -> where / with which closing tick it was accepted
+		disturbed := false // a crash or an injected failure has happened: checkpoints may lag behind what was accepted
 		for _, e := range x.events {
+			switch e.Kind {
+			case "crash":
+				if e.Detail != "final clean restart" {
+					disturbed = true
+				}
+			case "reject", "put-fail", "ddl-reject", "target-fail", "conn-fail":
+				disturbed = true
+			}
 			switch e.Kind {
 			case "put":
 				for pch, pi := range e.Pos.Positions {
@@ -447,6 +456,11 @@ func (x *fsExec) check() (viol []sched.Violation, summary string, nontrivial boo
 					}
 				}
 			case "restart", "resume":
+				if !disturbed {
+					// an undisturbed history (manual pause and resume, a restart at a quiescent point): every accepted pack has
+					// been checkpointed, nothing is sent again, and time on the channel goes on from where it was
+					break
+				}
 				// streams are resumed from the persisted checkpoints: packs accepted after the checkpointed one are sent
 				// again (C05 allows that) with the times they had, so the floor for what follows is the closing tick of the
 				// checkpointed packs, not of the last accepted ones
@@ -928,14 +942,25 @@ func fsC05Scenarios(thorough bool) []*fsScenario {
 // the pack from the closing tick before it {same millisecond (logical part only), +1 ms, +10 ms}. Hybrid timestamps stay
 // legal: data is newer than the tick before it and not newer than its own closing tick.
 func fsGenScripts(maxLen int) (names []string, scripts [][]fsPack) {
-	kinds := []string{"i", "d", "x", "t", "b"}
-	steps := []struct {
+	return fsGenScriptsOver([]string{"i", "d", "x", "t", "b"}, []int64{0, 1, 10}, 1, maxLen)
+}
+
+func fsGenScriptsOver(kinds []string, stepMs []int64, minLen, maxLen int) (names []string, scripts [][]fsPack) {
+	type step struct {
 		n  string
 		ms int64
-	}{{"=", 0}, {"+1", 1}, {"+10", 10}}
+	}
+	var steps []step
+	for _, ms := range stepMs {
+		n := fmt.Sprintf("+%d", ms)
+		if ms == 0 {
+			n = "="
+		}
+		steps = append(steps, step{n, ms})
+	}
 	var rec func(name string, script []fsPack, ms, lg int64)
 	rec = func(name string, script []fsPack, ms, lg int64) {
-		if len(script) > 0 {
+		if len(script) >= minLen {
 			names = append(names, name)
 			scripts = append(scripts, append([]fsPack{}, script...))
 		}
@@ -944,7 +969,7 @@ func fsGenScripts(maxLen int) (names []string, scripts [][]fsPack) {
 		}
 		for _, k := range kinds {
 			for _, st := range steps {
-				if len(script) == 0 && st.ms != 0 {
+				if len(script) == 0 && st != steps[0] {
 					continue // the first pack has nothing before it
 				}
 				m, l := ms+st.ms, int64(0)
@@ -980,8 +1005,16 @@ func fsC05Generated(thorough bool) []*fsScenario {
 		one = 2 // two deviations: repeated failures, a failure and a crash, two crashes
 	}
 	names, scripts := fsGenScripts(maxLen)
+	// longer scripts over {ins, tick-only} (a stream that goes idle after data: only its clock moves) for the larger batch
+	// sizes: a batch that holds data followed by several tick-only packs of the same stream
+	ln, ls := fsGenScriptsOver([]string{"i", "t"}, []int64{10}, 4, 5)
+	nShort := len(scripts)
+	names, scripts = append(names, ln...), append(scripts, ls...)
 	var out []*fsScenario
 	for i, script := range scripts {
+		if i >= nShort {
+			counts = []int{3, 4}
+		}
 		data := 0
 		for _, p := range script {
 			data += len(p.Msgs)
@@ -1244,7 +1277,7 @@ func TestVerifC03Resume(t *testing.T) {
 		bound = 3
 	}
 	res.Rule = "full-stack harness of C05 (crash before / after every visible step, write and store failures, manual pause, restart from the persisted checkpoints, skewed streams sharing a downstream channel); oracle over the packs the downstream ACCEPTED on each channel, in order, across all incarnations: closing ticks never decrease, every data message is above every earlier accepted pack's closing tick and not above its own"
-	fsExplore(t, res, "C03", bound, fsC05Scenarios(ev.Thorough()), 150*time.Second)
+	fsExplore(t, res, "C03", bound, append(fsC05Scenarios(ev.Thorough()), fsC05Generated(ev.Thorough())...), 150*time.Second)
 }
 
 func TestVerifC11Fullstack(t *testing.T) {
